@@ -137,6 +137,47 @@ pub fn check(sc: &Scenario, ex: &mut Exec) -> (Verdict, Option<String>) {
                         break;
                     }
                 }
+                // mixed keys: which (public, private) tuples appear must not be decided by the
+                // tuples' own few holders. A compiler that thresholds the private part alone has to
+                // output the whole grid (released private values x public values) - then the set of
+                // released tuples is a product; one that thresholds tuples releases only tuples held
+                // by more than tau units. A set that is not a product and contains a tuple held by
+                // fewer units than tau is released tuple by tuple without a threshold of its own.
+                let pub_cols: Vec<String> = q.keys.iter().filter(|k| k.public_set.is_some()).map(|k| k.alias.clone()).collect();
+                let plain_keys = q.keys.iter().all(|k| k.group_expr.is_none() && k.select_agg.is_none());
+                if !pub_cols.is_empty() && plain_keys && q.having.is_none() && q.outer.is_none() && q.holders_override.is_none() {
+                    let all_cols: Vec<String> = q.keys.iter().map(|k| k.alias.clone()).collect();
+                    let hidx: Vec<Option<usize>> = all_cols.iter().map(|c| hold.col(c)).collect();
+                    if hidx.iter().all(|i| i.is_some()) && all_cols.iter().all(|c| rs.col(c).is_some()) {
+                        let mut tuple_holders: BTreeMap<Vec<String>, BTreeSet<String>> = BTreeMap::new();
+                        for r in &hold.rows {
+                            tuple_holders.entry(hidx.iter().map(|i| r[i.unwrap()].key()).collect()).or_default().insert(r[uidx].key());
+                        }
+                        let tuples = project(&rs, &all_cols);
+                        let ks = project(&rs, &priv_cols);
+                        let ps = project(&rs, &pub_cols);
+                        ex.stats.probe("mixed_keys_tuples_checked");
+                        if tuples.len() < ks.len() * ps.len() {
+                            ex.stats.probe("mixed_keys_released_set_not_a_product");
+                            if let Some(t) = tuples.iter().find(|t| {
+                                let n = tuple_holders.get(*t).map(|s| s.len()).unwrap_or(0);
+                                n >= 1 && !(n as f64 > tau_req * (1.0 - 1e-6))
+                            }) {
+                                let n = tuple_holders.get(t).map(|s| s.len()).unwrap_or(0);
+                                violations.push(Violation {
+                                    property: "C04".into(),
+                                    invariant: "tuple_released_by_its_own_holders".into(),
+                                    class: "unclassified".into(),
+                                    detail: format!(
+                                        "with zero threshold noise the released key tuples ({} of {} x {}) are not the grid of released private values and public values, and the tuple {:?} (columns {:?}) is among them although only {} unit(s) hold it (required tau {}): its release is decided by its own holders",
+                                        tuples.len(), ks.len(), ps.len(), t, all_cols, n, tau_req
+                                    ),
+                                    witness: json!({"tuple": t, "units": n, "tau_required": tau_req, "released_tuples": tuples.len(), "private_values": ks.len(), "public_combinations": ps.len()}),
+                                });
+                            }
+                        }
+                    }
+                }
                 // public part
                 for ks in q.keys.iter().filter(|k| k.public_set.is_some()) {
                     if let Some(i) = rs.col(&ks.alias) {
